@@ -243,6 +243,10 @@ def run(ctx):
     # block-level correspondence of the file block-list model the FileMap theorems are about
     from . import filemapcorr
     filemapcorr.run(ctx, 14 if ctx.tier == "quick" else 350)
+    # call-level correspondence of the file handle state machine the FileIO theorems are about (struct AdfFile fields, results and
+    # raw blocks after every call = Model/FileIO.v)
+    from . import fileiocorr
+    fileiocorr.run(ctx, 40 if ctx.tier == "quick" else 1500)
     tf = common.translator_failures(ctx, NEEDED)
     if tf:
         proof["problems"].append("translator could not translate: %s" % tf)
